@@ -26,6 +26,7 @@ type ReaderCfg struct {
 	Retain   bool   `json:"retain"`    // keep every slice returned since the last Release and re-check it after every op
 	CoTenant int    `json:"co_tenant"` // 0 off, 1 adversary keeps what it takes, 2 adversary frees it again
 	NoNeg    bool   `json:"no_neg"`
+	Warm     int    `json:"warm,omitempty"` // (Next(1), Release) cycles before the history starts (the size-statistics ring wraps at 10)
 }
 
 type rop struct {
@@ -61,6 +62,8 @@ type readerSys struct {
 	ch        *mc.Chooser
 	devMax    int
 	dead      bool
+
+	warmWhat, warmSig string
 }
 
 func newReaderSys(cfg ReaderCfg) *readerSys {
@@ -105,6 +108,19 @@ func (s *readerSys) Reset() {
 		dr := bufiox.NewDefaultReader(s.env)
 		s.r, s.dr = dr, dr
 	}
+	s.warmWhat, s.warmSig = "", ""
+	for i := 0; i < s.cfg.Warm && s.warmWhat == ""; i++ {
+		for _, want := range []rop{{"next", 1}, {"release", 0}} {
+			for oi, o := range s.ops {
+				if o == want {
+					if what, sig := s.Apply(oi, true); what != "" && s.warmWhat == "" {
+						s.warmWhat, s.warmSig = fmt.Sprintf("warm-up cycle %d: %s", i, what), sig
+					}
+					break
+				}
+			}
+		}
+	}
 }
 
 func (s *readerSys) termErr() error {
@@ -145,6 +161,12 @@ func (s *readerSys) Key() string {
 
 // Apply executes one operation on the real reader and on the cursor model.
 func (s *readerSys) Apply(op int, check bool) (what, sig string) {
+	if s.warmWhat != "" { // a violation met during the warm-up cycles is reported by the first transition
+		what, sig = s.warmWhat, s.warmSig
+		s.warmWhat = ""
+		s.dead = true
+		return
+	}
 	o := s.ops[op]
 	if s.cfg.CoTenant != 0 {
 		mcache.VerifCoTenant(s.cfg.CoTenant == 1)
